@@ -16,6 +16,11 @@ Parses (json / python `ast`, never imports) and emits coq/theories/Gen/SpecData.
 `propertyNames: {"type": "string"}` is accepted and emits nothing: keys of a
 `Json.jv` object are strings by construction.
 
+* which `re` function `environment.Script._verify` applies to which pattern
+  (maestrowf/datastructures/environment/script.py) as the string
+  `script_verify_form` ("search:\\w+"): the model's `wordy` was written against
+  exactly that form, Props/C13.v carries the equality as an obligation.
+
 Fail-closed: any JSON-Schema keyword, keyword value, or Python shape that the
 Gallina side has no exact counterpart for raises NotTranslatable.
 """
@@ -460,8 +465,79 @@ Import ListNotations.
 """ % (SCHEMA, ENUMS, FLUX)
 
 
+# ----------------------------------------------------------------------------
+# environment.Script._verify: which `re` function is applied to which pattern
+# ----------------------------------------------------------------------------
+SCRIPT = "maestrowf/datastructures/environment/script.py"
+RE_FUNCS = ("search", "match", "fullmatch")
+
+
+def gen_script(repo):
+    """`script_verify_form` = "<re function>:<pattern text>" of Script._verify,
+    e.g. "search:\\w+".  Understood shapes of the single return statement:
+    bool(re.F(P, self.source)) / bool(P.F(self.source)) (bool() optional), P a
+    string literal, re.compile(<literal>), or a name bound once to one of those
+    in the method or at module level.  Anything else: NotTranslatable."""
+    tree = _parse(repo, SCRIPT)
+    cls = _class(tree, "Script", SCRIPT)
+    fns = [n for n in cls.body if isinstance(n, ast.FunctionDef) and n.name == "_verify"]
+    if len(fns) != 1:
+        _fail("expected exactly one Script._verify in %s" % SCRIPT)
+    fn = fns[0]
+    binds = {}
+
+    def collect(body):
+        for st in body:
+            if isinstance(st, ast.Assign) and len(st.targets) == 1 and isinstance(st.targets[0], ast.Name):
+                n = st.targets[0].id
+                binds[n] = None if n in binds else st.value     # bound twice: unusable
+
+    collect(tree.body)
+    local = [st for st in fn.body if not _is_doc_or_log(st)]
+    collect(local[:-1])
+    for st in local[:-1]:
+        if not isinstance(st, ast.Assign):
+            _fail("unsupported statement in Script._verify", st)
+    if not local or not isinstance(local[-1], ast.Return) or local[-1].value is None:
+        _fail("Script._verify does not end in a return of an expression")
+
+    def pattern(e, depth=0):
+        if depth > 3:
+            _fail("pattern of Script._verify is bound too indirectly", e)
+        if isinstance(e, ast.Constant) and isinstance(e.value, str):
+            return e.value
+        if (isinstance(e, ast.Call) and isinstance(e.func, ast.Attribute) and e.func.attr == "compile"
+                and isinstance(e.func.value, ast.Name) and e.func.value.id == "re"
+                and len(e.args) == 1 and not e.keywords):
+            return pattern(e.args[0], depth + 1)
+        if isinstance(e, ast.Name) and binds.get(e.id) is not None:
+            return pattern(binds[e.id], depth + 1)
+        _fail("unsupported pattern expression in Script._verify", e)
+
+    def is_source(e):
+        return (isinstance(e, ast.Attribute) and e.attr == "source"
+                and isinstance(e.value, ast.Name) and e.value.id == "self")
+
+    e = local[-1].value
+    if (isinstance(e, ast.Call) and isinstance(e.func, ast.Name) and e.func.id == "bool"
+            and len(e.args) == 1 and not e.keywords):
+        e = e.args[0]
+    if not (isinstance(e, ast.Call) and isinstance(e.func, ast.Attribute) and e.func.attr in RE_FUNCS
+            and not e.keywords):
+        _fail("Script._verify does not return a re.search/match/fullmatch result", e)
+    if isinstance(e.func.value, ast.Name) and e.func.value.id == "re" and len(e.args) == 2 and is_source(e.args[1]):
+        pat = pattern(e.args[0])
+    elif len(e.args) == 1 and is_source(e.args[0]):
+        pat = pattern(e.func.value)
+    else:
+        _fail("unsupported call shape in Script._verify", e)
+    return ("(* environment.Script._verify: <re function>:<pattern> applied to the source line *)\n"
+            "Definition script_verify_form : str := %s.\n" % g_str("%s:%s" % (e.func.attr, pat)))
+
+
 def generate(repo):
     schemas = gen_schemas(repo)
     prio, names = gen_priority(repo)
     flux = gen_flux(repo, names)
-    return {"Gen/SpecData.v": HEADER + schemas + "\n" + prio + "\n" + flux}
+    script = gen_script(repo)
+    return {"Gen/SpecData.v": HEADER + schemas + "\n" + prio + "\n" + flux + "\n" + script}
